@@ -228,14 +228,16 @@ PROPS = {
                 not_decided=["where, choose, full, full_like, broadcast_arrays, iteration (bounded only)",
                              "which element numpy places where (numpy semantics: bounded conformance)"]),
     "C10": dict(level="other", contracts=["numpoly.simple_dispatch", "numpoly.sum", "numpoly.cumsum", "numpoly.mean", "numpoly.diff",
-                                          "numpoly.multiply"],
+                                          "numpoly.multiply", "numpoly._prod"],
                 explanation="sum/cumsum/mean are proved to apply numpy.sum/cumsum/mean to every coefficient column of the operand with "
                 "axis/dtype/keepdims forwarded unchanged (contract of simple_dispatch: every column written, rows/names kept); that a "
                 "linear column-wise reduction denotes the finite sum of the elements is bridge B5. diff is proved: the operands "
                 "(a, append, prepend) are aligned to common terms, numpy.diff is applied to the columns of ONE term of each with n and "
                 "axis forwarded, for every term (first iteration peeled: allocation; loop invariant: definedness), result dtype = "
                 "numpy's promotion. multiply (on which prod, outer, inner, matmul, det are built) is proved at coefficient level "
-                "(C01). prod, ediff1d, inner, outer, matmul, det themselves (axis/index algebra): bounded run-time checks "
+                "(C01); _prod, the core of prod, is proved for axis 0 and 1 to return the product of ALL slices along the axis, each "
+                "once, in index order (loop invariant over the multiply contract). prod's axis handling, ediff1d, inner, outer, "
+                "matmul, det (axis/index algebra): bounded run-time checks "
                 "(conc/checks_c10.py).",
                 trusted_base=COMMON_TRUSTED),
     "C11": dict(level="other", contracts=["numpoly.isconstant", "numpoly.tonumpy", "numpoly.absolute", "numpoly.ceil", "numpoly.floor",
